@@ -729,6 +729,10 @@ void doReferencedUnits(const ModelPtr &model, const UnitsPtr &units, std::vector
         const std::string ref = units->unitAttributeReference(index);
         if (!isStandardUnitName(ref)) {
             auto refUnits = model->units(ref);
+            if (refUnits == nullptr) {
+                // The model does not have the units referred to: there is nothing to collect.
+                continue;
+            }
             // Do not follow units that (directly or indirectly) refer to themselves.
             if (std::find(unitsBeingVisited.begin(), unitsBeingVisited.end(), refUnits) == unitsBeingVisited.end()) {
                 doReferencedUnits(model, refUnits, requiredUnits, unitsBeingVisited);
